@@ -2,6 +2,7 @@ import PprofVerif.Lemmas.FilterName
 import PprofVerif.Lemmas.FilterCorollaries
 import PprofVerif.Lemmas.FilterShowFrom
 import PprofVerif.Lemmas.FilterShowFromOnly
+import PprofVerif.Lemmas.FilterShowFromFrames
 import PprofVerif.Model.TagFilter
 import PprofVerif.Lemmas.TagRange
 /-!
@@ -201,6 +202,14 @@ theorem showFrom_removes_only_root_side (p : Profile) (R : Rx) :
     List.Sublist ((showFrom p (some R)).1.samples.map (fun s => (s.values, s.label, s.numLabel)))
       (p.samples.map (fun s => (s.values, s.label, s.numLabel))) :=
   ⟨showFromSample_prefix p R, showFromLoc_prefix p R, showFrom_samples_sublist p R⟩
+
+/-- FRAME LEVEL, UNCONDITIONAL: the frames of every sample kept by show_from are, in order, a
+sublist of that sample's frames before — show_from never adds, duplicates, renames or reorders a
+frame (it may, inside the recorded finding, remove more than the rule says). -/
+theorem showFrom_frames_only_removed (p : Profile) (R : Rx) (s s' : Sample)
+    (h : showFromSample p R s = some s') :
+    List.Sublist (frames (showFrom p (some R)).1 s') (frames p s) :=
+  showFrom_frames_sublist p R s s' h
 
 /-- no show_from expression: nothing changes. -/
 theorem showFrom_none_id (p : Profile) : showFrom p none = (p, false) := rfl
